@@ -55,6 +55,14 @@ def special_transcripts(rng):
     out.append(("ready_huge_vlen", E.mk_cfg(stype="PULL"), g + E.frame([5] + E.asc("READY") + [1, 65, 255, 255, 255, 255, 1], cmd=True)))
     out.append(("ready_dup_props", E.mk_cfg(stype="PULL"), g + E.frame([5] + E.asc("READY") + E.prop(E.asc("Socket-Type"), E.asc("PUSH")) + E.prop(E.asc("Socket-Type"), E.asc("PUB")), cmd=True) + E.frame([7])))
     out.append(("ready_empty_name", E.mk_cfg(stype="PULL"), g + E.frame([5] + E.asc("READY") + [0, 0, 0, 0, 0], cmd=True) + E.frame([7])))
+    # every prefix of a valid READY body (two properties) as a complete, consistently framed command: the metadata parser
+    # sees each truncation point - inside a name, after it, after 0/1/2/3 of the 4 value-length bytes, inside a value
+    # (added after the seeded change C07-ready-metadata-hoisted-bounds-check, which needs exactly 3 length bytes)
+    full_ready = E.ready_body("PUSH", [7, 7, 7])
+    for k in range(6, len(full_ready)):
+        out.append(("ready_prefix_%d" % k, E.mk_cfg(stype="PULL"), g + E.frame(full_ready[:k], cmd=True) + E.frame([1])))
+        if k % 3 == 0:
+            out.append(("ready_prefix_srv_%d" % k, E.mk_cfg(stype="PULL", server=True), E.greeting("NULL", 0) + E.frame(full_ready[:k], cmd=True)))
     pc = E.mk_cfg(server=True, stype="REP", plain=True, user="u", pw="p")
     pg = E.greeting("PLAIN", 0)
     out.append(("plain_empty_token", pc, pg + E.frame([], cmd=True)))
